@@ -3,11 +3,14 @@
 (* INCLUDE expansion (property C15).                                       *)
 (*                                                                         *)
 (* A file system  fs : file id -> Seq(Line)  where a Line is either        *)
-(*    [k |-> "c", word]                             a chunk of content     *)
+(*    [k |-> "c", word, look]                       a chunk of content     *)
 (*        (its id is <<f, i>>, file and line index; it is written out as   *)
 (*         <<f, i, e>> with e the line ending of the text that arrives)    *)
 (*        word BOOLEAN: the chunk mentions the word "include" somewhere    *)
 (*             that is no directive (a comment, a commented-out directive) *)
+(*        look "none" | "open" | "close" | "pair": the chunk shows the     *)
+(*             characters of a block-comment opener / closer / both inside *)
+(*             a string value or a # comment (DATA "shp/*.shp")            *)
 (*    [k |-> "i", t, st, q, cm, base, alt, altdir]  an INCLUDE directive:  *)
 (*        t    target file id (0 = a name that denotes no file)            *)
 (*        st   "rel" | "abs"        how the path is written                *)
@@ -19,6 +22,8 @@
 (*             same string denotes the existing file alt (0: no decoy), a  *)
 (*             one-chunk file that the property never reaches; joined onto *)
 (*             any other directory the string denotes nothing              *)
+(* A file may be named by several directives (MaxShare; never a cycle):    *)
+(* each directive is replaced by the content, so the chunks come twice.    *)
 (* nl[f] is the line ending of file f ("lf" | "crlf"): substitution is     *)
 (* verbatim, every chunk keeps the line breaks of the file it stands in.   *)
 (* Directories are abstract ids; dir[f] is the directory of file f, file 1 *)
@@ -59,8 +64,14 @@ CONSTANTS
     ResolveAgainst,  \* what the machine joins a relative path onto: "root" | "cwd" | "includer" |
                      \*   "includer-first" | "cwd-first" (that directory if the name exists there, else the root's)
     ReadMode,        \* "verbatim" | "translate-included" (line ends of included files turned into LF)
-    DepthGuard       \* "directive": the limit is tested when a directive is met at level MaxNested |
+    DepthGuard,      \* "directive": the limit is tested when a directive is met at level MaxNested |
                      \* "word": on entering a level-MaxNested file that mentions the word "include"
+    MaxShare,        \* directives naming a file that another directive names already (no cycle: a DAG)
+    Looks,           \* comment look-alikes a chunk may carry inside a string value or a # comment:
+                     \*   subset of {"none", "open", "close", "pair"}  ( /*   */   /* .. */ )
+    CycleGuard,      \* "none" | "seen": refuse a file that was expanded anywhere before in this load
+    CommentScan      \* "none" | "textual": a chunk showing /* switches directive recognition off until
+                     \*   a chunk showing */ (a purely textual scan for block comments)
 
 VARIABLES
     phase,           \* "build" | "run"
@@ -70,23 +81,24 @@ VARIABLES
     cur,             \* file under construction (files are filled in breadth-first order)
     spine,           \* deepest file of the branch that has to reach level want
     want, cap,
-    nback, nmiss,
+    nback, nmiss, nshare,
     entry,           \* "file" | "string"
     cwd0,            \* working directory when the call is made
     cwd,             \* current working directory
-    stack,           \* Seq([file, line])
+    stack,           \* Seq([file, line, skip])
+    seen,            \* files expanded so far (only kept when CycleGuard = "seen")
     depth,           \* the nesting counter of the machine
     out,             \* Seq(<<file, line, line ending>>): chunks written so far
     status           \* "idle" | "running" | "done" | "errDepth" | "errMissing"
 
-gvars == <<n, fs, dir, level, parent, nl, ndecoy, cur, spine, want, cap, nback, nmiss, entry, cwd0>>
-mvars == <<stack, depth, out, status>>
+gvars == <<n, fs, dir, level, parent, nl, ndecoy, cur, spine, want, cap, nback, nmiss, nshare, entry, cwd0>>
+mvars == <<stack, seen, depth, out, status>>
 vars  == <<phase, gvars, cwd, mvars>>
 
 Missing   == 0
 DecoyBase == 100                     \* decoy files have ids above DecoyBase; their content is one chunk
 IsDecoy(f) == f > DecoyBase
-Lines(f)  == IF IsDecoy(f) THEN <<[k |-> "c", word |-> FALSE]>> ELSE fs[f]
+Lines(f)  == IF IsDecoy(f) THEN <<[k |-> "c", word |-> FALSE, look |-> "none"]>> ELSE fs[f]
 Terminal == {"done", "errDepth", "errMissing"}
 
 Pick(S) == IF Mode = "walk" THEN {RandomElement(S)} ELSE S
@@ -174,8 +186,9 @@ Planted(ln) == IF Norm(ln).alt # 0 THEN 1 ELSE 0
 
 AddContent ==
     /\ phase = "build" /\ RoomLine /\ ~LastIsContent(cur)
-    /\ \E w \in Pick(Words) : fs' = [fs EXCEPT ![cur] = Append(@, [k |-> "c", word |-> w])]
-    /\ UNCHANGED <<phase, n, dir, level, parent, nl, ndecoy, cur, spine, want, cap, nback, nmiss, entry, cwd0, cwd, mvars>>
+    /\ \E w \in Pick(Words), lk \in Pick(Looks) :
+         fs' = [fs EXCEPT ![cur] = Append(@, [k |-> "c", word |-> w, look |-> lk])]
+    /\ UNCHANGED <<phase, n, dir, level, parent, nl, ndecoy, cur, spine, want, cap, nback, nmiss, nshare, entry, cwd0, cwd, mvars>>
 
 AddFile ==
     /\ phase = "build"
@@ -191,7 +204,7 @@ AddFile ==
     /\ level' = Append(level, level[cur] + 1)
     /\ parent' = Append(parent, cur)
     /\ spine' = IF SpinePending THEN n + 1 ELSE spine
-    /\ UNCHANGED <<phase, cur, want, cap, nback, nmiss, entry, cwd0, cwd, mvars>>
+    /\ UNCHANGED <<phase, cur, want, cap, nback, nmiss, nshare, entry, cwd0, cwd, mvars>>
 
 AddBack ==
     /\ phase = "build" /\ RoomInc /\ nback < MaxBack
@@ -199,7 +212,7 @@ AddBack ==
          /\ fs' = [fs EXCEPT ![cur] = Append(@, Norm(ln))]
          /\ ndecoy' = ndecoy + Planted(ln)
     /\ nback' = nback + 1
-    /\ UNCHANGED <<phase, n, dir, level, parent, nl, cur, spine, want, cap, nmiss, entry, cwd0, cwd, mvars>>
+    /\ UNCHANGED <<phase, n, dir, level, parent, nl, cur, spine, want, cap, nmiss, nshare, entry, cwd0, cwd, mvars>>
 
 AddMissing ==
     /\ phase = "build" /\ RoomInc /\ nmiss < MaxMissing
@@ -207,25 +220,42 @@ AddMissing ==
          /\ fs' = [fs EXCEPT ![cur] = Append(@, Norm(ln))]
          /\ ndecoy' = ndecoy + Planted(ln)
     /\ nmiss' = nmiss + 1
-    /\ UNCHANGED <<phase, n, dir, level, parent, nl, cur, spine, want, cap, nback, entry, cwd0, cwd, mvars>>
+    /\ UNCHANGED <<phase, n, dir, level, parent, nl, cur, spine, want, cap, nback, nshare, entry, cwd0, cwd, mvars>>
+
+\* a file that is named already (by its parent, possibly by others) is named once more - by the same
+\* parent or from another branch - without closing a cycle: each directive is replaced by the content
+Succ(f) == {fs[f][i].t : i \in IncIdx(f)} \ {Missing}
+RECURSIVE Closure(_, _)
+Closure(S, k) == IF k = 0 THEN S ELSE Closure(S \cup UNION {Succ(f) : f \in S}, k - 1)
+ReachFrom(t) == Closure({t}, n)
+Shareable == {t \in 2..n : t \notin AncOrSelf(cur) /\ cur \notin ReachFrom(t)}
+
+AddShare ==
+    /\ phase = "build" /\ RoomInc /\ nshare < MaxShare
+    /\ Shareable # {}
+    /\ \E t \in Pick(Shareable) : \E ln \in Directive(t) :
+         /\ fs' = [fs EXCEPT ![cur] = Append(@, Norm(ln))]
+         /\ ndecoy' = ndecoy + Planted(ln)
+    /\ nshare' = nshare + 1
+    /\ UNCHANGED <<phase, n, dir, level, parent, nl, cur, spine, want, cap, nback, nmiss, entry, cwd0, cwd, mvars>>
 
 NextFile ==
     /\ phase = "build" /\ cur < n /\ ~SpinePending
     /\ cur' = cur + 1
-    /\ UNCHANGED <<phase, n, fs, dir, level, parent, nl, ndecoy, spine, want, cap, nback, nmiss, entry, cwd0, cwd, mvars>>
+    /\ UNCHANGED <<phase, n, fs, dir, level, parent, nl, ndecoy, spine, want, cap, nback, nmiss, nshare, entry, cwd0, cwd, mvars>>
 
 Start ==
     /\ phase = "build" /\ cur = n /\ ~SpinePending
     /\ ExactDefects => (nback = MaxBack /\ nmiss = MaxMissing)
     /\ phase' = "run"
-    /\ stack' = <<[file |-> 1, line |-> 1]>>
+    /\ stack' = <<[file |-> 1, line |-> 1, skip |-> FALSE]>>
     /\ status' = "running"
-    /\ UNCHANGED <<gvars, cwd, depth, out>>
+    /\ UNCHANGED <<gvars, cwd, seen, depth, out>>
 
 \* (simulation draws among the disjuncts: more files than anything else)
 AddFile2 == AddFile
 AddFile3 == AddFile
-Build == AddContent \/ AddFile \/ AddFile2 \/ AddFile3 \/ AddBack \/ AddMissing \/ NextFile
+Build == AddContent \/ AddFile \/ AddFile2 \/ AddFile3 \/ AddBack \/ AddMissing \/ AddShare \/ NextFile
 
 -----------------------------------------------------------------------------
 (* 2. The expansion machine                                                *)
@@ -254,29 +284,46 @@ Mentions(f) == \E i \in 1..Len(Lines(f)) : Lines(f)[i].k = "i" \/ Lines(f)[i].wo
 \* DepthGuard = "word": the limit fires on entering a file of level MaxNested that mentions the word
 WordTrap(ln) == DepthGuard = "word" /\ depth + 1 = MaxNested /\ Mentions(Resolve(ln))
 
+\* CommentScan = "textual": what a chunk does to the recognition of directives in the rest of its file
+SkipAfter(ln, sk) == IF CommentScan = "textual" /\ ln.look = "open" THEN TRUE
+                     ELSE IF CommentScan = "textual" /\ ln.look = "close" THEN FALSE ELSE sk
+Skipping == CommentScan = "textual" /\ Top.skip
+\* CycleGuard = "seen": the file was expanded before, anywhere in this load
+SeenTrap(ln) == CycleGuard = "seen" /\ Resolve(ln) \in seen
+
 Copy ==
     /\ status = "running" /\ ~AtEnd /\ Line.k = "c"
     /\ out' = Append(out, <<Top.file, Top.line, NlOf(Top.file)>>)
+    /\ stack' = [Advance(stack) EXCEPT ![Len(stack)].skip = SkipAfter(Line, @)]
+    /\ UNCHANGED <<phase, gvars, cwd, seen, depth, status>>
+
+\* (only with CommentScan = "textual") a directive taken for commented-out text stays in the result
+Keep ==
+    /\ status = "running" /\ ~AtEnd /\ Line.k = "i" /\ Skipping
+    /\ out' = Append(out, <<Top.file, Top.line, NlOf(Top.file)>>)
     /\ stack' = Advance(stack)
-    /\ UNCHANGED <<phase, gvars, cwd, depth, status>>
+    /\ UNCHANGED <<phase, gvars, cwd, seen, depth, status>>
 
 Enter ==
-    /\ status = "running" /\ ~AtEnd /\ Line.k = "i"
+    /\ status = "running" /\ ~AtEnd /\ Line.k = "i" /\ ~Skipping
     /\ depth < MaxNested
     /\ Resolve(Line) # Missing
     /\ ~WordTrap(Line)
-    /\ stack' = Append(stack, [file |-> Resolve(Line), line |-> 1])
+    /\ ~SeenTrap(Line)
+    /\ stack' = Append(stack, [file |-> Resolve(Line), line |-> 1, skip |-> FALSE])
+    /\ seen' = IF CycleGuard = "seen" THEN seen \cup {Resolve(Line)} ELSE seen
     /\ depth' = depth + 1
     /\ UNCHANGED <<phase, gvars, cwd, out, status>>
 
 Fail ==
-    /\ status = "running" /\ ~AtEnd /\ Line.k = "i"
+    /\ status = "running" /\ ~AtEnd /\ Line.k = "i" /\ ~Skipping
     /\ \/ depth >= MaxNested
        \/ Resolve(Line) = Missing
        \/ WordTrap(Line)
+       \/ SeenTrap(Line)
     /\ status' = IF depth >= MaxNested THEN "errDepth"                     \* the limit is tested first
                  ELSE IF Resolve(Line) = Missing THEN "errMissing" ELSE "errDepth"
-    /\ UNCHANGED <<phase, gvars, cwd, stack, depth, out>>
+    /\ UNCHANGED <<phase, gvars, cwd, stack, seen, depth, out>>
 
 Leave ==
     /\ status = "running" /\ AtEnd
@@ -285,9 +332,9 @@ Leave ==
        ELSE /\ stack' = Advance(SubSeq(stack, 1, Len(stack) - 1))
             /\ depth' = depth - 1
             /\ UNCHANGED status
-    /\ UNCHANGED <<phase, gvars, cwd, out>>
+    /\ UNCHANGED <<phase, gvars, cwd, seen, out>>
 
-Step == Copy \/ Enter \/ Fail \/ Leave
+Step == Copy \/ Keep \/ Enter \/ Fail \/ Leave
 
 Chdir ==
     /\ EnvChdir /\ status = "running"
@@ -310,10 +357,12 @@ Init ==
     /\ cap \in {c \in Caps : c > want /\ c <= MaxFiles}
     /\ nback = 0
     /\ nmiss = 0
+    /\ nshare = 0
     /\ entry \in Entries
     /\ cwd0 \in Dirs
     /\ cwd = cwd0
     /\ stack = <<>>
+    /\ seen = {}
     /\ depth = 0
     /\ out = <<>>
     /\ status = "idle"
@@ -336,7 +385,7 @@ TypeOK ==
     /\ n \in 1..cap /\ cap <= MaxFiles /\ Len(fs) = n /\ Len(dir) = n /\ Len(level) = n /\ Len(parent) = n /\ Len(nl) = n
     /\ \A f \in 1..n : /\ Len(fs[f]) <= MaxLines /\ Fan(f) <= MaxFan /\ level[f] <= MaxDepth
                        /\ \A i \in IncIdx(f) : fs[f][i].t \in 0..n /\ (fs[f][i].alt # 0 => fs[f][i].altdir # fs[f][i].base)
-    /\ nback <= MaxBack /\ nmiss <= MaxMissing /\ ndecoy <= MaxDecoy
+    /\ nback <= MaxBack /\ nmiss <= MaxMissing /\ ndecoy <= MaxDecoy /\ nshare <= MaxShare
     /\ status \in {"idle", "running"} \cup Terminal
     /\ (phase = "build") = (status = "idle")
 
@@ -368,11 +417,11 @@ Halts == (status = "running") ~> (status \in Terminal)
 Outcome == IF Allowed = {} THEN "ok" ELSE "error"
 
 Emit == status \in Terminal =>
-    PrintT(ToJson([n |-> n, dir |-> dir, level |-> level, nl |-> nl, ndecoy |-> ndecoy, fs |-> fs, entry |-> entry, cwd0 |-> cwd0,
+    PrintT(ToJson([n |-> n, dir |-> dir, level |-> level, nl |-> nl, ndecoy |-> ndecoy, nshare |-> nshare, fs |-> fs, entry |-> entry, cwd0 |-> cwd0,
                    base |-> PropBase,
                    outcome |-> Outcome,
                    allowed |-> Allowed,
                    flat |-> IF Allowed = {} THEN Flatten ELSE <<>>,
-                   full |-> IF nback = 0 THEN Full(1, 0, 1, MaxDepth + 2) ELSE <<>>,
+                   full |-> IF nback = 0 THEN Full(1, 0, 1, n) ELSE <<>>,
                    machine |-> [status |-> status, out |-> out]]))
 =============================================================================
